@@ -361,6 +361,11 @@ class ThreadWorker(base.Worker):
                 resp.force_close()
 
             respiter = self.wsgi(environ, resp.start_response)
+            if not self.alive:
+                # the worker was told to stop (or reached max_requests in
+                # another thread) while the application ran: the connection
+                # is closed after this response, announce it
+                resp.force_close()
             try:
                 if isinstance(respiter, environ['wsgi.file_wrapper']):
                     resp.write_file(respiter)
